@@ -285,6 +285,30 @@ def run(repo, rep, tier):
                       stmt='%s probe rating %s' % (w, nm), func='builtin_policies:BUILTIN_POLICIES')
     rep.floor('policy-no-fail', 'policy size entries rated through the probe thresholds', nrated, 50)
 
+    # ... nor from the Terrapin post-processing of the report: post_process_findings is interpreted (props/_terrapin.py) for the situation each built-in
+    # policy describes (role, own strict-KEX marker listed or not, ChaCha20 / CBC ciphers / EtM MACs listed or not): whatever it adds to the per-scan table
+    # is a warning or a note, never a failure (row 1) -- a peer configured exactly as the policy lists shows no failure
+    from props import _terrapin as _T17
+    ppf17 = repo.func('ssh_audit', 'post_process_findings')
+    rep.saw(ppf17)
+    seen_sit = {}
+    for pname, p in sorted(pol.items()):
+        client_ = not p.get('server_policy', True)
+        kexl, encl, macl = p.get('kex') or [], p.get('ciphers') or [], p.get('macs') or []
+        sit = (client_, _T17.C_LIT in kexl, _T17.S_LIT in kexl, any(x.startswith('chacha20-poly1305') for x in encl),
+               any(x.endswith(('-cbc', '-cbc@openssh.org', '-cbc@ssh.com')) or x == 'rijndael-cbc@lysator.liu.se' for x in encl), any(x.endswith('-etm@openssh.com') for x in macl))
+        seen_sit.setdefault(sit, []).append(pname)
+    for sit, pnames in sorted(seen_sit.items()):
+        val_ = {'kexp': True, 'client': sit[0], 'c': sit[1], 's': sit[2], 'chacha': sit[3], 'cbc': sit[4], 'etm': sit[5]}
+        finals_, _it, _n = _T17.interpret(repo, ppf17, val_)
+        rep.evals()
+        failed_ = sorted({(cat_, n_) for fe_ in finals_ for cat_, names_ in fe_['<table>'].items() for n_, rows_ in names_.items() if len(rows_) > 1 and rows_[1]})
+        rep.check('policy-no-fail', 'the Terrapin post-processing adds no failure for a peer configured per %d built-in polic%s (%s, %s%s%s)' % (
+                      len(pnames), 'y' if len(pnames) == 1 else 'ies', 'client' if sit[0] else 'server', 'own marker listed' if (sit[1] if sit[0] else sit[2]) else 'no marker', ', ChaCha20' if sit[3] else '', ', CBC+EtM' if sit[4] and sit[5] else ''),
+                  not failed_, polnode,
+                  'a peer configured exactly per built-in policy %r (and %d more) is failed by the Terrapin post-processing: %s get a failure-level note' % (pnames[0], len(pnames) - 1, failed_[:3]),
+                  stmt='terrapin post-processing adds no failure: %s' % (sit,), func='builtin_policies:BUILTIN_POLICIES')
+    rep.floor('policy-no-fail', 'policy situations interpreted through the Terrapin post-processing', len(seen_sit), 3)
     # ---- rule 5: policy table shape -----------------------------------------------------------------
     REQ = {'version', 'changelog', 'banner', 'compressions', 'host_keys', 'optional_host_keys', 'kex', 'ciphers', 'macs', 'hostkey_sizes', 'dh_modulus_sizes', 'server_policy'}
     rep.floor('policy-shape', 'built-in policies', len(pol), 40)
